@@ -252,6 +252,10 @@ def generate(rng, tier, pre=None):
     A("ecies.pub", [kh(LZ_PUB), kh(b0), "1", msg_desc(rng, 10)]); A("ecies.pub", [kh(a0), kh(LZ_PUB), "0", msg_desc(rng, 10)])
     A("ecies.self", [kh(LZ_PUB), "1", msg_desc(rng, 32)])
 
+    # one PrivateKey value through compress_public_key(false) / (true) (its public key after each step), then used
+    for n in (0, 20):
+        A("ecies.key_history", [kh(rng.choice(KEYS)), msg_desc(rng, n)])
+
     # convenience methods and the random-key round trip
     for n in ([0, 16, 40] if quick else [0, 1, 15, 16, 17, 40, 300]):
         A("ecies.self", [kh(rng.choice(KEYS)), str(rng.randrange(2)), msg_desc(rng, n)])
